@@ -3,5 +3,9 @@
 EXTENDS Integers, Sequences, FiniteSets, TLC, Json, IOUtils
 Sc == { [g1 |-> a, g2 |-> b, u1 |-> u1, u2 |-> u2, us |-> us, kind |-> k] :
           a \in {3, 5, 10}, b \in {0, 5, 7}, u1 \in {0, 1}, u2 \in {0, 1}, us \in {0, 1}, k \in {"GENCLS", "GENROU"} }
+      \cup
+      (* a distributed generator sharing the SLACK generator with the machine (shares d and 10 - d): what it takes over is the *)
+      (* solved power of the slack generator, not the starting value in the data                                              *)
+      { [g1 |-> a, g2 |-> 0, u1 |-> 1, u2 |-> 0, us |-> 1, kind |-> k, dg |-> d] : a \in {10}, k \in {"GENROU"}, d \in {2, 5} }
 ASSUME JsonSerialize(IOEnv.OUT, [scen |-> Sc])
 ====
